@@ -92,7 +92,7 @@ def main(chk):
                 J('SLOW_STOCH', 'scalar', [n, e], tf(n)); J('SLOW_STOCH', 'bar', [n, e], tf(n))
     chk.add(run_jobs(jobs))
     hs = [k_er_range(2, 6, chk.seed), k_er_range(2, 7, chk.seed, tab=[250000.0, 123456.789, 1.0, 1.0001, 1.0002, 1.0003, 1.0004], tag='_pips')] + ([k_er_range(2, 7, chk.seed), k_er_range(3, 7, chk.seed)] if not q else [])
-    chk.add(kani.run_family_set('C07', hs, jobs=4, timeout_s=300 if q else 3600))
+    chk.add(kani.run_family_set('C07', hs, jobs=4, timeout_s=300 if q else 1200))
     chk.assumptions += ['f64 arithmetic modelled as exact real arithmetic in engine R: the range is proved exactly (no slack needed) in the reals',
                         'positive prices / valid bars; claim applies where the reference denominator is non-zero']
     chk.notes += ['the 1e-9 rounding slack itself for full-range floating-point inputs', 'periods above the bound']
